@@ -91,6 +91,11 @@ func (o *pOutcome) labels() []string {
 // only). It reports whether the failure was tolerated.
 func (o *pOutcome) tolerate(f *verifkit.Failure, tolerateKnown bool) bool {
 	if f != nil && f.Sig != "" && tolerateKnown && verifkit.Known(f.Sig) {
+		for _, k := range o.Known {
+			if k == f.Sig {
+				return true
+			}
+		}
 		o.Known = append(o.Known, f.Sig)
 		return true
 	}
